@@ -1,7 +1,7 @@
 (* ExArgIndexProofs.v — C04 (b): obligations over the source-derived tables of coq/gen/ArgIndex.v
    (regenerated from /repo on every run by translators/cmd/argindex), and the meaning of [site_ok]. *)
 From Coq Require Import ZArith List Bool String Lia.
-From Verif Require Import model.ExArgIndex model.ExValues model.ExEval gen.ArgIndex.
+From Verif Require Import model.ExArgIndex model.ExValues model.ExEval model.ExLambda gen.ArgIndex.
 Import ListNotations.
 Open Scope Z_scope.
 
@@ -50,6 +50,13 @@ Lemma operator_guards_in_source :
   max_number_exponent_src = max_number_exponent /\ max_text_length_src = max_text_length
   /\ max_render_size_src = max_render_size /\ forallb snd operator_guards = true
   /\ List.length operator_guards = 11%nat.
+Proof. vm_compute. repeat split; reflexivity. Qed.
+
+(* the limits of an evaluation (nesting and number of calls of anonymous functions, work budget, charge per call) are
+   in excellent/tree.go and are the constants of model/ExLambda.v *)
+Lemma evaluation_limits_in_source :
+  max_anon_function_depth_src = Z.of_nat max_anon_function_depth /\ max_anon_function_calls_src = Z.of_N max_anon_function_calls
+  /\ max_evaluation_work_src = max_evaluation_work /\ function_call_work_src = function_call_work.
 Proof. vm_compute. repeat split; reflexivity. Qed.
 
 (* ------------------------------------------------------------------------------------------------ *)
